@@ -48,7 +48,7 @@ def run_scenario(sc):
     from tola.assembly.build_assembly import BuildAssembly
     from tola.assembly.gap import Gap
     t = {"tid": sc["tid"], "cls": sc["cls"], "tn": sc["tn"], "td": sc["td"], "naming": sc.get("naming", ""), "valid": sc["valid"],
-         "input": sc["input"], "map": sc["map"], "status": "ok", "out": [], "stats": {"cuts": 0, "breaks": 0, "joins": 0}, "msg": ""}
+         "input": sc["input"], "map": sc["map"], "haps": sc.get("haps", ["" for _ in sc["input"]]), "status": "ok", "out": [], "stats": {"cuts": 0, "breaks": 0, "joins": 0}, "msg": ""}
 
     def go(_):
         ia, p = build_objects(sc)
@@ -66,15 +66,15 @@ def run_scenario(sc):
         out, st = r[1]
         for key, asm in out.items():
             for s in asm.scaffolds:
-                t["out"].append({"asm": key or "", "name": s.name, "rank": s.rank or 0, "tag": s.tag or "", "hap": s.haplotype or "",
+                t["out"].append({"asm": key or "", "asm_lc": (key or "").lower(), "name": s.name, "rank": s.rank or 0, "tag": s.tag or "", "hap": s.haplotype or "",
                                  "orig": s.original_name or "", "rows": [prow(x) for x in s.rows]})
         t["stats"] = {"cuts": st.cuts, "breaks": st.breaks, "joins": st.joins}
     return t
 
 
-def pv_cfg(tn, td, mode, maxedits, nrandom, maxperturb=0, maxpieces=4, emit=True, inv=True):
+def pv_cfg(tn, td, mode, maxedits, nrandom, maxperturb=0, maxpieces=4, emit=True, inv=True, style="plain"):
     t = (f'SPECIFICATION Spec\nCONSTANTS TN = {tn} TD = {td} MinTex = 2 MaxEdits = {maxedits} MaxPieces = {maxpieces} NRandom = {nrandom} '
-         f'Mode = "{mode}" MaxPerturb = {maxperturb}\nVIEW View\nCHECK_DEADLOCK FALSE\n')
+         f'Mode = "{mode}" MaxPerturb = {maxperturb} NameStyle = "{style}"\nVIEW View\nCHECK_DEADLOCK FALSE\n')
     if inv:
         t += "INVARIANT TilesOK\n"
     if emit:
@@ -82,10 +82,10 @@ def pv_cfg(tn, td, mode, maxedits, nrandom, maxperturb=0, maxpieces=4, emit=True
     return t
 
 
-def export(run, name, tn, td, mode, maxedits, nrandom, maxperturb=0, simulate=None, cap=None, rng=None, keep=None, workers=8):
+def export(run, name, tn, td, mode, maxedits, nrandom, maxperturb=0, simulate=None, cap=None, rng=None, keep=None, workers=8, style="plain"):
     """Scenarios = the distinct maps TLC reaches (VIEW hides the edit counter).  Returns (scenarios, tlc result)."""
     args = ["-seed", str(C.seed() + 1)]
-    r = C.tlc("PretextView", pv_cfg(tn, td, mode, maxedits, nrandom, maxperturb), run.dir, name=name, workers=workers, timeout=2400, args=args,
+    r = C.tlc("PretextView", pv_cfg(tn, td, mode, maxedits, nrandom, maxperturb, style=style), run.dir, name=name, workers=workers, timeout=2400, args=args,
               simulate=simulate, heap="6g")
     if simulate is None:
         C.tlc_ok(r, "scenario export " + name)
